@@ -1063,6 +1063,9 @@ class TorConfig:
                 if v == DEFAULT_VALUE or v == 'auto':
                     try:
                         initial = defaults[name[:-5]]
+                        if not isinstance(initial, list):
+                            # a single config/defaults line is a string
+                            initial = [initial]
                     except KeyError:
                         default_key = '__{}'.format(name[:-5])
                         default = yield self.protocol.get_conf_single(default_key)
@@ -1105,6 +1108,9 @@ class TorConfig:
                 parsed = self.parsers[rn].parse(v)
                 if parsed == [DEFAULT_VALUE]:
                     parsed = defaults.get(rn, [])
+                    if not isinstance(parsed, list):
+                        # a single config/defaults line is a string
+                        parsed = self.parsers[rn].parse(parsed)
                 self.config[rn] = _ListWrapper(
                     parsed, functools.partial(self.mark_unsaved, rn))
 
